@@ -1,7 +1,7 @@
 CONSTANTS
  Guarded = TRUE
- MaxDepth = 0
- PlansOnly = FALSE
+ MaxDepth = 2
+ PlansOnly = TRUE
 SPECIFICATION Spec
 INVARIANT NoCrash
 INVARIANT Total
